@@ -176,7 +176,13 @@ func runC12(e *Env) {
 				now = bigOf(kase.Blocks[b].TimeNs)
 				height = kase.Blocks[b].Height
 			} else {
-				height += 1
+				// the first block of a chain started from a genesis file has the height InitGenesis ran at
+				// (InitChain with InitialHeight = N): half of the histories begin that way
+				if b == 0 && e.Chance(0.5) {
+					e.Stats.Count("first-block:same-height-as-init-genesis")
+				} else {
+					height += 1
+				}
 				cur := k.AllEpochInfos(ctx)
 				tgt := cur[e.Pick(len(cur))]
 				var boundary *big.Int
